@@ -44,7 +44,8 @@ def make_fields(rnd, uid):
         if rnd.random() < 0.4:
             b = rnd.choice([0, 1]); ev.append((name, rnd.choice(['0', 'false', 'F']) if b == 0 else rnd.choice(['1', 'true', 'yes', '2']), b))
     if rnd.random() < 0.35: ev.append(('ORGANIZER', rnd.choice(['mailto:', '']) + 'boss@example.com', 'boss@example.com'))
-    for _ in range(rnd.choice([0, 0, 1, 2, 3])):
+    # now and then a crowd of attendees: the written task is longer than the 4 KiB buffer of the writer
+    for _ in range(rnd.choice([0, 0, 1, 2, 3]) if rnd.random() < 0.93 else rnd.randint(40, 220)):
         a = 'u%d@example.org' % rnd.randint(1, 99); ev.append(('ATTENDEE', rnd.choice(['mailto:', '']) + a, a))
     cal = []
     def num(lst, name, p, gen, fmt):
@@ -127,11 +128,24 @@ def norm_task(t):
     o.setdefault('occ', [])
     return o
 
+def shift_displacement(rt):
+    """upper bound in days of what the SHIFT parts of the rule text move a date by (as C17 measures it): |days| + |business days| * 7 / 5 + 4"""
+    m = 0
+    for t in re.findall(r'SHIFT=([^;| ]*)', rt):
+        d = 0
+        for part in t.split(','):
+            x = re.match(r'^([-+]?\d+)(B?)', part)
+            if not x: continue
+            n = abs(int(x.group(1)))
+            d += n * 7 // 5 + 4 if x.group(2) else n
+        m = max(m, d)
+    return m
+
 def derive(rec):
     rt = rec.get('sched', {}).get('rtext', '')
     inter2 = any(int(x) >= 2 for x in re.findall(r'INTERVAL=(\d+)', rt))
     frame = bool(re.search(r'BYHOUR|BYMINUTE|BYSECOND|BYDAY|FREQ=(WEEKLY|HOURLY|MINUTELY|SECONDLY)', rt))
-    return {'displaced': 'SHIFT' in rt or 'BYEASTER' in rt, 'interval_ge2': inter2, 'has_weekno': 'BYWEEKNO' in rt, 'tz_frame_sensitive': bool(rec.get('sched', {}).get('tz')) and frame, 'kind': rec.get('sched', {}).get('kind'), 'special_chars': rec.get('special'), 'long_value': rec.get('long'), 'k': rec.get('k'), 'tz': rec.get('sched', {}).get('tz'),
+    return {'abs_displacement': shift_displacement(rt), 'displaced': 'SHIFT' in rt or 'BYEASTER' in rt, 'interval_ge2': inter2, 'has_weekno': 'BYWEEKNO' in rt, 'tz_frame_sensitive': bool(rec.get('sched', {}).get('tz')) and frame, 'kind': rec.get('sched', {}).get('kind'), 'special_chars': rec.get('special'), 'long_value': rec.get('long'), 'k': rec.get('k'), 'tz': rec.get('sched', {}).get('tz'),
             'has_pos': 'BYSETPOS' in rec.get('sched', {}).get('rtext', ''), 'has_shift': 'SHIFT' in rec.get('sched', {}).get('rtext', ''), 'has_scale': 'SCALE' in rec.get('sched', {}).get('rtext', ''),
             'has_easter': 'BYEASTER' in rec.get('sched', {}).get('rtext', ''), 'nrules': rec.get('sched', {}).get('rtext', '').count('|') + 1}
 
@@ -199,8 +213,10 @@ def run(tier, seed):
     chunks = vlib.split_lines(trace, vlib.NCPU, wd, 'rt', min_lines=50)
     v = vlib.validate('TraceRT.tla', 'TraceRT.cfg', chunks, wd, timeout=3000)
     bad = []
+    other = {fn: set(x.get('other', [])) for (fn, _), x in zip(chunks, v['extra'])}
     for fn, k, g in v['bad'][:3000]:
         rec = json.loads(vlib.getline(fn, k))
+        if k in other.get(fn, ()): rec['other_clause'] = True      # not (only) the occurrences read back: no known finding is about that
         bad.append((vlib.save_replay(PID, f'case{g}.json', rec), rec))
     unlisted, listed = vlib.classify(PID, bad, derive)
     import collections
